@@ -179,6 +179,8 @@ def opCmp (st : St) (head pathToks argToks outToks : List String) : String :=
     match st.types[tid]?, st.vals[vid]?, parseForm form, parsePath pathToks, opTok.toInt?, parseSeg rightTok, parseCmpOut outTok with
     | some n, some v, some f, some (p, _), some op, some right, some impl =>
       if mutF == "1" then "dev-viol read-operation-modified-its-argument" else
+      -- hypotheses of C04.cmp_correct, evaluated on every input
+      if !(RootOK n && EmitOK n) then "dev-ok hypothesis RootOK/EmitOK of cmp_correct does not hold for this type tree" else
       if right.pf == .inexact then "skip inexact-operand" else
       let okOf (o : CmpOut) : Bool :=
         match rootOf f with
